@@ -214,3 +214,5 @@ more("C13","Every invalid patch of the case list at six positions of a delta (be
 more("C15","Every JWS also with the signer's own public key named in the protected header (publicKeyJwk, jwk), judged under every other key of the type.")
 more("C16","Every EC JWK that the predicate refuses is also read with a d member beside the same x and y.")
 
+# round 13
+more("C18","Created / updated times at the width boundaries of the seconds count: 2^31, 2^32, 9223372036 and 9223372037 (the last second whose nanosecond count fits int64 and the first that does not), 253402300799.")
